@@ -1,3 +1,7 @@
+#[cfg(feature = "verif")]
+#[allow(unused_imports)]
+use qbice_verif_rt::{tokio, std};
+
 use std::{collections::VecDeque, sync::Arc};
 
 use qbice_stable_hash::{Compact128, StableHash};
